@@ -6,8 +6,13 @@
  *        c20_prog <bindir> <qhome> <workdir> -      (cases "P <prog> <variant> <in-hex>" on stdin)
  * <workdir>/c20_qq (compiled from c20_qq.c by the check script) stands in for qmail-queue.
  * variants: smtpd/qmtpd bit0 RELAYCLIENT, bit1 DATABYTES=50; popup 0 checkpassword=/bin/true, 1 /bin/false;
- *   inject 0 "-n", 1 "-n -H extra@arg.example" QMAILINJECT=f, 2 "-n -h -fsnd-@[]" QMAILINJECT=cfsirm QMAILNAME QMAILMFTFILE;
- *   qmqpd, pop3d (run as uid 65534 when we are root), local (input = contents of .qmail-ext, run with -n): 0 only.
+ *   inject 0 "-n", 1 "-n -H extra@arg.example" QMAILINJECT=f, 2 "-n -h -fsnd-@[]" QMAILINJECT=cfsirm QMAILNAME QMAILMFTFILE,
+ *     3 no -n: the message is really queued (qmail_open/put/from/to/close) through the stand-in qmail-queue;
+ *   local (input = contents of .qmail-ext): 0 "-n" (instructions are printed), 1 REAL delivery: the message is a regular file
+ *     on stdin, mbox / maildir instructions write into the private home directory, "|" lines run /bin/sh (PATH=/nonexistent),
+ *     forward lines build the recipient table and go through the stand-in qmail-queue; run as uid 65534 when we are root so
+ *     that a generated absolute path cannot write outside the scratch directory;
+ *   qmqpd, pop3d (run as uid 65534 when we are root): 0 only.
  * exit -1 sig 9 san 0 = killed by us: hung after its stdin was closed (or after it stopped reading); see expired().
  * Enumerated cases depend only on <level>; random cases on <seed> and <shard>.  The out-prefix / outlen of some
  * programs contain the time and pids (qp, APOP banner, Message-ID), so only exit/sig/san are reproducible there. */
@@ -32,11 +37,11 @@ enum { SMTPD, QMTPD, QMQPD, POP3D, POPUP, INJECT, LOCAL, NPROG };
 static const char *pname[NPROG] = {"smtpd", "qmtpd", "qmqpd", "pop3d", "popup", "inject", "local"};
 static const char *pbin[NPROG] = {"qmail-smtpd", "qmail-qmtpd", "qmail-qmqpd", "qmail-pop3d",
                                   "qmail-popup", "qmail-inject", "qmail-local"};
-static const int pnvar[NPROG] = {4, 4, 1, 1, 2, 3, 1};
+static const int pnvar[NPROG] = {4, 4, 1, 1, 2, 4, 2};
 static const char LOCALMSG[] = "Subject: c20\n\nbody line\n";
 
 static const char *bindir, *qhome, *workdir;
-static char sdir[2048], popdir[2100], homedir[2100], qqpath[2100], mftpath[2100], sanlog[2100];
+static char sdir[2048], popdir[2100], homedir[2100], qqpath[2100], mftpath[2100], sanlog[2100], msgpath[2100];
 static int level = 1, shard, nshards = 1, isroot;
 static unsigned long caseid;
 
@@ -109,6 +114,7 @@ static void setup(const char *tag)
   put_in(t, "rcpthosts", "me.example\n.sub.example\n", 24, 1, 0);
   put_in(t, "databytes", "100000\n", 7, 1, 0);
   put_in(t, "localiphost", "me.example\n", 11, 1, 0);
+  put_in(t, "badmailfrom", "bad@client.example\n@bad.example\n", 32, 1, 0); /* the table is built and consulted; no base sender matches */
   mkdirp(workdir);
   if (!(workdir = realpath(workdir, 0)) || !(bindir = realpath(bindir, 0))) die("realpath");
   snprintf(sdir, sizeof sdir, "%s/%s", workdir, tag);
@@ -120,6 +126,14 @@ static void setup(const char *tag)
   if (access(qqpath, X_OK) == -1) die(qqpath);
   put_in(workdir, "c20_mft", "list@lists.example\nto@example\n", 30, 1, 0);
   mkdirp(homedir); chmod(homedir, 0755);
+  snprintf(msgpath, sizeof msgpath, "%s/c20_msg", sdir);
+  put_in(sdir, "c20_msg", LOCALMSG, sizeof LOCALMSG - 1, 0, 0);
+  { static const char *hs[] = {"", "/Maildir", "/Maildir/tmp", "/Maildir/new", "/Maildir/cur"};   /* real deliveries of qmail-local */
+    for (int i = 0; i < 5; i++) {
+      snprintf(t, sizeof t, "%s%s", homedir, hs[i]);
+      mkdirp(t); chmod(t, 0755);
+      if (isroot && chown(t, NOBODY, NOBODY) == -1) die(t);
+    } }
   for (int i = 0; i < 5; i++) {
     snprintf(t, sizeof t, "%s%s", popdir, sub[i]);
     mkdirp(t); chmod(t, 0755);
@@ -154,7 +168,7 @@ static void child_exec(int prog, int var)
     break;
   case INJECT: /* -n: print instead of queueing; -H: recipients from args and header; -h: header only */
     ev[e++] = "QMAILUSER=u"; ev[e++] = "QMAILHOST=h.example";
-    av[a++] = "-n";
+    if (var != 3) av[a++] = "-n"; else ev[e++] = e_qq;
     if (var == 1) { ev[e++] = "QMAILINJECT=f"; av[a++] = "-H"; av[a++] = "extra@arg.example"; }
     if (var == 2) {
       ev[e++] = "QMAILINJECT=cfsirm"; ev[e++] = "QMAILNAME=Full (Name) \"x\""; ev[e++] = e_mft;
@@ -162,13 +176,19 @@ static void child_exec(int prog, int var)
     }
     break;
   case LOCAL:
-    av[a++] = "-n"; av[a++] = "user"; av[a++] = homedir; av[a++] = "user-ext"; av[a++] = "-";
+    if (var & 1) { ev[e++] = e_qq; ev[e++] = "PATH=/nonexistent"; } else av[a++] = "-n";
+    av[a++] = "user"; av[a++] = homedir; av[a++] = "user-ext"; av[a++] = "-";
     av[a++] = "ext"; av[a++] = "dom.example"; av[a++] = "sender@x.example"; av[a++] = "./Maildir/";
     break;
   }
   av[a] = 0; ev[e] = 0;
   if (chdir(cwd) == -1) _exit(126);
-  if (prog == POP3D && isroot) /* qmail-pop3d refuses to run with uid 0 */
+  if (prog == LOCAL && (var & 1)) { /* deliveries rewind the message: stdin must be a regular file */
+    int fd = open(msgpath, O_RDONLY);
+    if (fd == -1 || dup2(fd, 0) == -1) _exit(123);
+    close(fd);
+  }
+  if ((prog == POP3D || (prog == LOCAL && (var & 1))) && isroot) /* qmail-pop3d refuses to run with uid 0; qmail-local must not write as root */
     if (setgroups(0, 0) == -1 || setgid(NOBODY) == -1 || setuid(NOBODY) == -1) _exit(125);
   execve(path, av, ev);
   _exit(127);
@@ -240,6 +260,7 @@ static void run_case(int prog, int var, const unsigned char *in, size_t n)
   if (prog == LOCAL) {
     put_in(homedir, ".qmail-ext", in, n, 0, 0);
     sin = (const unsigned char *)LOCALMSG; sn = sizeof LOCALMSG - 1;
+    if (var & 1) { sn = 0; empty_dir(homedir, "Maildir/new"); empty_dir(homedir, "Maildir/tmp"); }
   }
   fflush(h_out);
   if (pipe(pi) == -1 || pipe(po) == -1 || pipe(pe) == -1) die("pipe");
@@ -743,29 +764,96 @@ static void gen_inject(void)
 }
 
 /* ---------- local (.qmail file contents) ---------- */
+/* every case in both modes: 0 = -n (the instructions are printed), 1 = real delivery (mbox / maildir / program / forward table) */
+static void EL(void) { emit(LOCAL, 0, B.p, B.n); emit(LOCAL, 1, B.p, B.n); hbuf_reset(&B); }
+/* without the level-2 mutated neighbours */
+static void EP(int var)
+{
+  if (caseid++ % (unsigned long)nshards == (unsigned long)shard) run_case(LOCAL, var, B.p, B.n);
+}
+/* grammar of .qmail lines: <first byte> <tail> [newline].  qmail-local sizes its forward-recipient table in a first pass over
+ * the lines and fills it in a second pass that classifies each line again after stripping trailing blanks: the two passes
+ * must agree for every first byte, for empty / blank / indented remainders, in every line position, with and without a
+ * final newline.  Only the real delivery mode builds the table. */
+static void gen_local_grammar(void)
+{
+  static const unsigned char INTR[] = {'#', '.', '/', '|', '&', '+', ' ', '\t', '\n', '\r', 0, 'a', '@', 0xff, '-', '0', '"', '<', '\\', ':', ',', '(', 0x7f, 0x80};
+  static const struct { const char *p; size_t n; } TAIL[] = {AD(""), AD("fwd@x.example"), AD(" \t "), AD(" fwd@x.example")};
+  static const char *fill0[] = {"#c\n", "&f@x.example\n"}, *fill1[] = {"g@y.example\n", "+x\n", " \n"};
+  static const long LL[] = {254, 255, 256, 257, 1000, 8192};
+  const int NI = (int)sizeof INTR, NT = 4;
+  /* A: one line, every first byte 0..255 */
+  for (int b = 0; b < 256; b++)
+    for (int t = 0; t < NT; t++)
+      for (int nl = 1; nl >= 0; nl--) {
+        int intr = memchr(INTR, b, sizeof INTR) != 0;
+        if (!nl && level < 2 && !intr) continue;
+        unsigned char c = (unsigned char)b;
+        for (int v = 1; v >= 0; v--) {
+          if (!v && level < 2 && !(intr && nl)) continue;
+          hbuf_reset(&B); M(&c, 1); M(TAIL[t].p, TAIL[t].n); if (nl) S("\n"); EP(v);
+        }
+      }
+  /* B: the line in every position of files of 2..6 lines, the other lines harmless (comments, +x, forwards, blank) */
+  for (int n = 2; n <= 6; n++)
+    for (int pos = 0; pos < n; pos++)
+      for (int i = 0; i < NI; i++)
+        for (int t = 0; t < NT; t++) {
+          hbuf_reset(&B);
+          for (int l = 0; l < n; l++) {
+            if (l == pos) { M(INTR + i, 1); M(TAIL[t].p, TAIL[t].n); S("\n"); }
+            else S((n + pos) % 2 ? fill1[l % 3] : fill0[l % 2]);
+          }
+          if ((i + t + pos) % 5 == 0) B.n--;   /* no final newline */
+          EP(1);
+          if (level >= 2 && (i + t) % 3 == 0) EP(0);
+        }
+  /* C: 1..6 lines of the same shape */
+  for (int n = 1; n <= 6; n++)
+    for (int i = 0; i < NI; i++)
+      for (int t = 0; t < NT; t++) {
+        hbuf_reset(&B);
+        for (int l = 0; l < n; l++) { M(INTR + i, 1); M(TAIL[t].p, TAIL[t].n); if (t == 1 || t == 3) { char d[8]; M(d, (size_t)snprintf(d, sizeof d, ".%d", l)); } S("\n"); }
+        EP(1);
+      }
+  /* D: long lines around the 256-byte read buffer of slurpclose, after a forward line */
+  for (int i = 0; i < NI; i++)
+    for (int k = 0; k < 6; k++) {
+      hbuf_reset(&B); S("&f@x.example\n"); M(INTR + i, 1); R(k % 2 ? ' ' : 'x', (size_t)LL[k] - 22); S("@y.examp"); if (k < 4) S("\n&z@z\n"); EP(1);
+    }
+  hbuf_reset(&B);
+}
 static void gen_local(void)
 {
   static const char *kind[] = {"#", "|", "/", "./", "&", "", "+", ".", " "};
   static const char sh[] = "#c\n|p\n./M/\n&a@b\nc@d\n";
-  for (int b = 0; b < nbase[LOCAL]; b++) trunc_all(LOCAL, 0, base[LOCAL][b].p, base[LOCAL][b].n);
-  for (size_t k = 0; k < base[LOCAL][0].n; k++) { M(base[LOCAL][0].p, base[LOCAL][0].n); B.p[k] = 0; E(LOCAL, 0); }
+  for (int b = 0; b < nbase[LOCAL]; b++) for (size_t k = 0; k <= base[LOCAL][b].n; k++) { M(base[LOCAL][b].p, k); EL(); }
+  for (size_t k = 0; k < base[LOCAL][0].n; k++) { M(base[LOCAL][0].p, base[LOCAL][0].n); B.p[k] = 0; EL(); }
   for (int k = 0; k < 9; k++) {
-    S(kind[k]); R('x', 100000); S("\n"); E(LOCAL, 0);
-    S("#first\n"); S(kind[k]); R('x', 100000); S("/"); E(LOCAL, 0);
-    for (int i = 0; i < (level < 2 ? 5000 : 50000); i++) { S(kind[k]); S("l@x.example\n"); } E(LOCAL, 0);
-    S("#\n"); S(kind[k]); S("\n"); E(LOCAL, 0); S(kind[k]); E(LOCAL, 0); S("#\n"); S(kind[k]); S(" \t \n"); S(kind[k]); R(' ', 10000); E(LOCAL, 0);
+    S(kind[k]); R('x', 100000); S("\n"); EL();
+    S("#first\n"); S(kind[k]); R('x', 100000); S("/"); EL();
+    for (int v = 0; v < 2; v++) { /* real delivery forks once per mbox line: fewer lines there */
+      for (int i = 0; i < (v ? 300 : level < 2 ? 5000 : 50000); i++) { S(kind[k]); S("l@x.example\n"); }
+      emit(LOCAL, v, B.p, B.n); hbuf_reset(&B);
+    }
+    for (int i = 0; i < (level < 2 ? 5000 : 50000); i++) { S(kind[k]); S("l@x.example\n"); }
+    if (k >= 4 && k != 7) emit(LOCAL, 1, B.p, B.n); /* forward / ignored lines: one big recipient table */
+    hbuf_reset(&B);
+    S("#\n"); S(kind[k]); S("\n"); EL(); S(kind[k]); EL(); S("#\n"); S(kind[k]); S(" \t \n"); S(kind[k]); R(' ', 10000); EL();
   }
   for (size_t k = 0; k < sizeof sh; k++) {
-    M(sh, k); M("\0", 1); M(sh + k, sizeof sh - 1 - k); E(LOCAL, 0);       /* NUL inserted */
-    if (k < sizeof sh - 1) { M(sh, sizeof sh - 1); B.p[k] = 0; E(LOCAL, 0); } /* NUL overwriting */
+    M(sh, k); M("\0", 1); M(sh + k, sizeof sh - 1 - k); EL();       /* NUL inserted */
+    if (k < sizeof sh - 1) { M(sh, sizeof sh - 1); B.p[k] = 0; EL(); } /* NUL overwriting */
   }
   static const struct { const char *p; size_t n; } od[] = {AD(""), AD("\n"), AD(" \n"), AD("   \n&a@b\n"), AD("#\n   \n\t\n&a@b\n"), AD("&"), AD("&\n"), AD("&\n&\n"),
     AD("& a@b\n"), AD("#\n\n\n\n"), AD("a@b\n\n\n"), AD("+list\n&a@b\n./M/\n"), AD("+list"), AD("+\n"), AD("#\n/\n"), AD("#\n.\n"), AD("#\n|\n"), AD("./\n"),
-    AD("|exit 99\n&never@x\n"), AD("a@b\r\n&c@d\r\n"), AD("\xff\xfe\n"), AD("#\n\xff@\xff\n"), AD("&a@b \t \n/x/ \t\n|p \n./m  \n")};
-  for (unsigned i = 0; i < sizeof od / sizeof od[0]; i++) { M(od[i].p, od[i].n); E(LOCAL, 0); }
-  S("&u"); R('@', 2000); S("x\n"); E(LOCAL, 0);
-  S("u"); R('@', 2000); E(LOCAL, 0);
-  RS("\n", 5000); E(LOCAL, 0); S("#\n"); RS("\n", 5000); S("&a@b"); E(LOCAL, 0); S("#\n"); RS(" \n", 5000); E(LOCAL, 0);
+    AD("|exit 99\n&never@x\n"), AD("a@b\r\n&c@d\r\n"), AD("\xff\xfe\n"), AD("#\n\xff@\xff\n"), AD("&a@b \t \n/x/ \t\n|p \n./m  \n"),
+    AD("|exit 0\n./Maildir/\n./mbox\n&a@b\n c@d\n\te@f \n"), AD("|exit 100\n&a@b\n"), AD("|exit 111\n"), AD("|exit 64\n"), AD("|kill -9 $$\n"), AD("./Maildir/\n./Maildir/\n&a@b\n&c@d\n&e@f\n")};
+  for (unsigned i = 0; i < sizeof od / sizeof od[0]; i++) { M(od[i].p, od[i].n); EL(); }
+  S("&u"); R('@', 2000); S("x\n"); EL();
+  S("u"); R('@', 2000); EL();
+  RS("\n", 5000); EL(); S("#\n"); RS("\n", 5000); S("&a@b"); EL(); S("#\n"); RS(" \n", 5000); EL();
+  gen_local_grammar();
 }
 
 /* ---------- base inputs (also the seeds of the random mutations) ---------- */
@@ -861,11 +949,10 @@ int main(int argc, char **argv)
       run_case(prog, var, in.p, in.n);
     }
     free(line); free(in.p);
-    /* remove the private directory again */
+    /* remove the private directory again (sdir = <workdir>/sX<pid>, made by setup()) */
     char t[4300];
-    reset_maildir(0);
-    static const char *rm[] = {"home/.qmail-ext", "pop/Maildir/new", "pop/Maildir/cur", "pop/Maildir/tmp", "pop/Maildir", "pop", "home", ""};
-    for (int i = 0; i < 8; i++) { snprintf(t, sizeof t, "%s/%s", sdir, rm[i]); if (i == 0) unlink(t); else rmdir(t); }
+    snprintf(t, sizeof t, "rm -rf '%s'", sdir);
+    if (strstr(sdir, "/sX") && system(t)) {}
   } else {
     gen_smtpd(); gen_ns(0); gen_ns(1); gen_pop3d(); gen_popup(); gen_inject(); gen_local();
     h_seed((uint64_t)seed * 1000003ull + (uint64_t)shard);
